@@ -68,12 +68,26 @@ Theorem C47_no_deadlock : forall c0 calls s, cinv c0 ->
   exists t, tstep g t <> None.
 Proof. intros c0 calls s H1 H2 g. apply (no_deadlock c0 calls). apply C47_concurrent_invariant; auto. Qed.
 
-Theorem C47_oracle_sound : forall c, check_C47 c = true ->
-  match c with
-  | CSeq size ops obs => Forall (fun rs => snap_spec size (snd rs) /\ fst rs <> RHang) obs
-  | CWave size _ _ _ _ _ final => snap_spec size final
-  end.
-Proof. exact check_C47_sound. Qed.
+(* the oracle means exactly the property clauses: budget of every observed state, every cached blob
+   was produced for its id, every lookup returns what the cache held for the id just before
+   (a miss in GetOrCompute returns the computed outcome, a hit does not compute); for a wave:
+   every call returned a blob produced for its id, or an error only if some compute for the id failed *)
+Theorem C47_oracle_sound : forall c, check_C47 c = true <-> case_spec c.
+Proof. exact check_C47_iff. Qed.
+
+(* the model's own observations of any script satisfy the oracle *)
+Theorem C47_model_satisfies_oracle : forall size c0 ops, new size = Some c0 -> Forall wf_op ops ->
+  check_C47 (CSeq size ops (model_obs c0 ops)) = true.
+Proof. exact model_satisfies_oracle. Qed.
+
+(* ... and so do the final observations of any wave of concurrent calls, for every schedule after
+   which all calls have returned *)
+Theorem C47_model_wave_satisfies_oracle : forall size c00 prefill calls s,
+  new size = Some c00 -> Forall wf_op prefill -> (forall id b, In (id, Some b) calls -> wf_blob b) ->
+  let g := sched (ginit (fst (run c00 prefill)) calls) s in
+  (forall th, In th (g_thr g) -> exists r, t_pc th = PDone r) ->
+  check_C47 (CWave size prefill calls s (map thread_result (g_thr g)) [] (snap_of (g_c g))) = true.
+Proof. exact model_wave_satisfies_oracle. Qed.
 
 Print Assumptions C47_budget.
 Print Assumptions C47_lru_limit_never_hit.
@@ -86,3 +100,5 @@ Print Assumptions C47_value_correct.
 Print Assumptions C47_owner_unique.
 Print Assumptions C47_no_deadlock.
 Print Assumptions C47_oracle_sound.
+Print Assumptions C47_model_satisfies_oracle.
+Print Assumptions C47_model_wave_satisfies_oracle.
